@@ -60,12 +60,18 @@ class _limit:
     def _raise(self, *a):
         raise _Timeout()
 
+    # the limit is on the CPU time of this process (a broken loop burns CPU; a machine that stalls because many checks run
+    # in parallel does not), with a wall-clock backstop at ten times the limit
     def __enter__(self):
         self.old = signal.signal(signal.SIGALRM, self._raise)
-        signal.setitimer(signal.ITIMER_REAL, self.seconds)
+        self.oldv = signal.signal(signal.SIGVTALRM, self._raise)
+        signal.setitimer(signal.ITIMER_REAL, 10 * self.seconds)
+        signal.setitimer(signal.ITIMER_VIRTUAL, self.seconds)
 
     def __exit__(self, *a):
+        signal.setitimer(signal.ITIMER_VIRTUAL, 0)
         signal.setitimer(signal.ITIMER_REAL, 0)
+        signal.signal(signal.SIGVTALRM, self.oldv)
         signal.signal(signal.SIGALRM, self.old)
         return False
 
@@ -158,8 +164,16 @@ def _call(f, *args, limit=20.0):
         with _limit(limit):
             r = f(*args)
     except _Timeout:
-        _DEAD.add(name)
-        return 'timeout', f'no result within {limit} s'
+        # a wall-clock limit can also expire because the whole machine stalled (many checks in parallel): the call is
+        # repeated once with three times the limit before the map is declared non-terminating
+        try:
+            with _limit(3 * limit):
+                r = f(*args)
+        except _Timeout:
+            _DEAD.add(name)
+            return 'timeout', f'no result within {limit} s, nor within {3 * limit} s when repeated'
+        except Exception as ex:   # noqa
+            return 'raised', f'{type(ex).__name__}: {ex}'
     except Exception as ex:   # noqa
         return 'raised', f'{type(ex).__name__}: {ex}'
     try:
@@ -1410,6 +1424,15 @@ MANIFEST_ENTRY = {
              'specification partitions the positions (magang_grouping_partition), the dict keys of zernikes_to_magnitude_angle are one-to-one on '
              'the classes at structure level (gen_keepsWholeName + magang_name_keys_injective), suffix X/00 <-> m>0 and Noll even index <-> '
              'cosine NAME (name_suffix_iff_cosine, noll_even_iff_cosine_name). '
+             'SCOPE GUARD: names, the magnitude/angle dict, top_n and the bar plots are CONSUMERS of the conventions, not part of the statement. '
+             'Every name-layer translator item is first executed on a grid of valid orders (n<=40); when the source follows another naming '
+             'scheme / spelling / key rule than the hand model the item is untranslatable (TIE-DEGRADED, name families widened, index sweeps not) '
+             'and its theorems speak about the hand model only. RED at the name layer is only what follows from the statement: an exception on '
+             'a valid order / list, two valid orders with ONE name (terms collapse where names are keys), a wrong +-m grouping (set of (n,|m|) keys), '
+             'a lost term (sum of magnitude^2 != sum of c^2, or fewer named entries than classes). String structure, word count, ordinal scheme, '
+             'X/Y or degree glyph, order of dict / top_n / bars, angle convention are recorded as consumer notes in the evidence and never make '
+             'the run red; the barplot family is skipped with a note when matplotlib/Agg is unusable. Wall-clock guards are CPU-time limits '
+             '(a stalled machine is not a non-terminating map). '
              'Compared only: that the real strings have that structure and are pairwise different (all valid n<=80/400), magnitude = hypot, '
              'angle = degrees(atan2(first, second)), order of groups = first appearance, zernikes_to_magnitude_angle loses no class, '
              'top_n returns the k largest |c| in descending order with matching position and name; barplot_magnitudes draws one bar per class, label and height '
